@@ -1,7 +1,7 @@
 (* C13 — slashing/jailing and admin operations compose safely. *)
 From stdpp Require Import gmap.
 Require Import Model.Base Model.Validate Model.State Model.Staking Model.Slashing Model.Poa Model.App.
-Require Import proofs.L1More proofs.Inv proofs.InvIdx proofs.InvPres proofs.InvMsgs proofs.InvHistory proofs.InvQueue proofs.InvPools.
+Require Import proofs.L1More proofs.Inv proofs.InvIdx proofs.InvPres proofs.InvMsgs proofs.InvHistory proofs.InvQueue proofs.InvPools proofs.InvElig.
 
 (* admin operations aimed at a jailed validator fail cleanly (the transaction wrapper then restores the state) *)
 Theorem C13_set_power_on_jailed_fails : forall c val power unsafe v,
@@ -49,3 +49,13 @@ Theorem C13_slash_never_short_of_funds : forall g bs k p f,
   let c := w_chain (run_world (init_world g) bs) in
   slash c k p f = None -> exists id v, by_cons (stk c) !! k = Some id /\ vals (stk c) !! id = Some v /\ v_status v = Unbonded.
 Proof. exact reachable_slash_funds. Qed.
+
+(* the power index holds an entry for every validator that is not jailed and has a positive power — so a validator
+   unjailed, re-powered or re-admitted after any sequence of slashes and admin operations is seen by the next
+   EndBlocker — and (C13_jailed_owns_no_index_entry) none for a jailed one *)
+Theorem C13_index_complete : forall g bs id v,
+  let s := stk (w_chain (run_world (init_world g) bs)) in
+  vals s !! id = Some v -> v_jailed v = false -> 0 < v_power v -> In (v_power v, id) (pidx s).
+Proof.
+  intros g bs id v s Hv Hj Hp. apply (reachable_IC g bs id v I Hv). unfold eligible. rewrite Hj. cbn. apply Z.ltb_lt. exact Hp.
+Qed.
